@@ -14,11 +14,14 @@ type VerifField struct {
 }
 
 // VerifFieldsFor runs fieldsFor on a struct type.
-func VerifFieldsFor(t reflect.Type) []VerifField {
-	fs := fieldsFor(t)
+func VerifFieldsFor(t reflect.Type) ([]VerifField, error) {
+	fs, err := fieldsFor(t)
+	if err != nil {
+		return nil, err
+	}
 	out := make([]VerifField, len(fs))
 	for i, f := range fs {
 		out[i] = VerifField{f.name, f.path, f.omitEmpty, f.hint, f.annotations}
 	}
-	return out
+	return out, nil
 }
